@@ -127,6 +127,10 @@ func runDecIsolated(inputs [][]byte) []decResult {
 const allocPerByte = 1024
 const allocBase = 1 << 16
 
+// stackProbeDepth: nesting depth of the input that probes the decoder's recursion (KNOWN_FINDINGS
+// D14: the goroutine stack limit of 1 GB is reached between 3 and 4 million levels)
+const stackProbeDepth = 4200000
+
 func hostileDecInputs(r *rand.Rand, n int, thorough bool) ([][]byte, []string) {
 	var ins [][]byte
 	var tags []string
@@ -172,6 +176,34 @@ func hostileDecInputs(r *rand.Rand, n int, thorough bool) ([][]byte, []string) {
 		add(hdr(append(bytes.Repeat([]byte{0x01, 0x01}, d), 0xA5, 0x01, 0x07)), "valid-deep-nesting")
 		add(hdr(append(bytes.Repeat([]byte{0x01, 0x02, 0x01, 0x00}, d), 0x01, 0x00, 0x01, 0x00)), "valid-deep-nesting")
 	}
+	// the same with a leaf item next to every nested list: building a list must not walk (and
+	// allocate for) its whole subtree again at every level
+	leaves := [][]byte{{0xA5, 0x01, 0x07}, {0x25, 0x01, 0x01}, {0x69, 0x02, 0x00, 0x07}, {0x91, 0x04, 0x3F, 0x80, 0, 0}, {0x21, 0x01, 0xFF}, {0x41, 0x01, 0x41}, {0xA5, 0x00}}
+	leafDepths := []int{250, 1000, 2500}
+	if thorough {
+		leafDepths = append(leafDepths, 6000, 12000)
+	}
+	for _, d := range leafDepths {
+		for _, leaf := range leaves {
+			var t []byte
+			for i := 0; i < d; i++ {
+				if i%2 == 0 || len(leaf) == 2 { // leaf before the nested list, or after it
+					t = append(append(t, 0x01, 0x02), leaf...)
+				} else {
+					t = append(t, 0x01, 0x02)
+				}
+			}
+			t = append(t, 0x01, 0x00)
+			for i := d - 1; i >= 0; i-- {
+				if !(i%2 == 0 || len(leaf) == 2) {
+					t = append(t, leaf...)
+				}
+			}
+			add(hdr(t), "valid-deep-with-leaves")
+		}
+	}
+	// recursive descent: one stack frame per nesting level (truncated, so nothing is built)
+	add(hdr(bytes.Repeat([]byte{0x01, 0x01}, stackProbeDepth)), "stack-depth-probe")
 	// refused floats (NaN, infinities) and then valid float messages: a refusal must leave no
 	// state behind that the next call trips over
 	for _, f := range [][]byte{{0x91, 0x04, 0x7F, 0xC0, 0x00, 0x00}, {0x91, 0x04, 0x7F, 0x80, 0x00, 0x00}, {0x81, 0x08, 0xFF, 0xF0, 0, 0, 0, 0, 0, 0},
@@ -231,7 +263,7 @@ func suiteC07(c *Ctx) []Suite {
 			for i, b := range ins {
 				r := res[i]
 				cs := Case{Nontrivial: true, Tags: []string{tags[i], "outcome:" + r.class}}
-				if len(b) <= 4096 && tags[i] != "valid-deep-nesting" { // printing is cubic in the nesting depth
+				if len(b) <= 4096 && tags[i] != "valid-deep-nesting" && tags[i] != "valid-deep-with-leaves" { // printing is cubic in the nesting depth
 					cs.Op = "dec " + hx(b)
 					cs.Decisive = true
 					cs.cmpKeys = "=" // accept/reject token only
@@ -241,6 +273,8 @@ func suiteC07(c *Ctx) []Suite {
 					}
 					cs.cmpKeys = ""
 					cs.Decisive = false
+				} else if tags[i] == "stack-depth-probe" {
+					cs.Detail = fmt.Sprintf("dec of %d nested one-element list headers (%d bytes, truncated): one stack frame per level", stackProbeDepth, len(b))
 				} else {
 					cs.Detail = fmt.Sprintf("%s input of %d bytes: %x…", tags[i], len(b), b[:24])
 				}
